@@ -4,6 +4,10 @@ import json, os
 ROOT = os.path.dirname(os.path.dirname(os.path.abspath(__file__)))
 
 CHECKS = {
+ 'C19': dict(level='exploration', design='DESIGN.md §5 C19',
+   technique='CrossHair symbolic execution of the data library functions through the real call wrapper on small symbolic tables (measure cells symbolic ints or pool values, key cells chosen by symbolic indices from a mixed-type pool), compared with a relational reference in plain Python',
+   text='Per data function and table size CrossHair explores tables whose key cells range over a pool that mixes 1, 1.0, "1", true, null and strings with JSON punctuation and whose measure cells are symbolic: dataAggregate (six functions, partition by value equality, non-null measures, exact rationals), dataSort (ordered by keys/directions, stable), dataTop (first n per category, float and int counts), dataFilter, dataCalculatedField, dataJoin (pairs by key value, left fields never overwritten, right names unique under aa/aa2/aa3 collisions) and the CSV typing round trip incl. date-like invalid text. Conditions that do not exhaust their paths within the budget are reported inconclusive (bug-finding only).',
+   note='Trusted: CrossHair/z3, the relational reference in vf/props/c19.py, C11 for value equality. Bounds: <= 2 (quick) / 3 (thorough) rows; 12x5 tables are outside.'),
  'C18': dict(level='exploration', design='DESIGN.md §5 C18',
    technique='CrossHair symbolic execution of generator-enumerated jump-level models with symbolic condition outcomes: a run raises Unknown jump label only for labels lint warned about; concrete sweeps for purity, static exactness of label/redefinition warnings and edit-justification',
    text='For batches of jump-level models (user labels, duplicate labels, dangling jumps, one and two functions) CrossHair explores every outcome sequence of the conditional jumps and checks that a run can raise "Unknown jump label x" only if lint_script issued an unknown-label warning for x. The remaining clauses have no input to range over and are evaluated concretely on every enumerated model (stated as such): lint never raises, leaves the model unchanged and is deterministic (also on parsed structured programs and every shipped .bare file); label/redefinition warnings equal an independent static computation; each unused-variable/argument/label and pointless-statement warning is justified by applying the suggested edit and comparing runs.',
